@@ -150,21 +150,10 @@ CLAIMS["C10"] = {
     "design": "DESIGN.md §5 C10",
 }
 
-CLAIMS["C17"] = {
-    "text": "Partial, bounded: dfir_lang::union_find::UnionFind (the whole file extracted verbatim into a harness crate on every run) is checked "
-            "by Kani over 3 slotmap keys from every state reachable by <= 2 unions: same_set is exactly the equivalence closure of the unioned "
-            "pairs, find is idempotent, returns a member of the class and path compression does not change the partition, union(a,b) returns the "
-            "representative a's class had before the call and that class keeps its representative (the fact SubgraphMerge::try_merge relies on).",
-    "note": "NOT covered: topo_sort, validate_topo_sort, SubgraphMerge::{new,try_merge,subgraphs}: they allocate std HashMap/HashSet/BTreeMap/BTreeSet "
-            "internally (cannot be swapped through a type parameter) and CBMC did not finish a 2-node topo_sort in 7 minutes even with hasher "
-            "stubs (spiked); their bodies are outside Verus' subset. A change in the DFS marks or the window re-sort is not detected.",
-    "technique": "contract-based verification: Kani bounded harness contracts on the verbatim-extracted functions against an equivalence-closure oracle",
-    "design": "DESIGN.md §5 C17",
-}
-
 NOT_APPLICABLE = {
     "C08": "GHT nodes own std HashMap / hashbrown HashTable at every level; variadic type recursion is outside Verus' subset and CBMC does not get through hashbrown probing (spiked): no contract on these functions can be discharged here.",
     "C16": "Tool limit, measured: the channel (Rc<RefCell<Shared>>, Weak, VecDeque, SmallVec<[Waker;1]>, tokio error types) extracted verbatim into a Kani harness crate (contracts/kani/vk_mpsc, kept unregistered) drives CBMC to 65 GB RSS in propositional reduction for a single try_send call with static-vtable wakers and forgotten endpoints; Rc/RefCell/Waker code is outside Verus' subset; the no-stranded-sender part is a liveness property needing whole-history ghost state. The stale-duplicate-waker stranding trace found while reading is documented in DESIGN.md §6.2 with its native reproduction; no registered check reports it.",
+    "C17": "Tool limit, measured: topo_sort / validate_topo_sort / SubgraphMerge::try_merge allocate std HashMap/HashSet/BTreeMap/BTreeSet internally (not swappable through a type parameter; CBMC did not finish a 2-node topo_sort in 7 min even with hasher stubs) and are outside Verus' subset (recursive inner fn, FnMut closures returning generic IntoIterators). The one remaining piece, dfir_lang::union_find::UnionFind over slotmap::SecondaryMap, was extracted verbatim into a Kani harness crate (contracts/kani/vk_uf, kept unregistered): every harness, including a single find on the empty structure with 3 keys, exceeds 1200 s of CBMC time (recursive find + SecondaryMap::insert growth). Nothing of C17 can be discharged here.",
     "C18": "Quantifies over programs the compiler accepts; partition_graph works on DfirGraph (slotmaps of syn AST nodes): no contract over that state is within Verus' subset and Kani cannot build a symbolic DfirGraph.",
     "C19": "Same as C18; the only function-level dependency (topo_sort cycle detection) owns a std HashMap internally and is out of reach (spiked).",
     "C20": "Whole-graph rewrite + serde round trip of DfirGraph; no per-function contract expresses 'preserves the dataflow'.",
@@ -197,6 +186,9 @@ NOT_YET = {}  # properties whose machinery is not finished: named in notes, not 
 def main():
     checks = []
     for pid in sorted(registry.PROPS):
+        if pid not in CLAIMS:
+            print(f"note: {pid} has registered units but no claim text yet: left out of MANIFEST (work in progress)")
+            continue
         c = CLAIMS[pid]
         checks.append({
             "property_id": pid,
@@ -209,7 +201,7 @@ def main():
             "level_note": c["note"],
             "technique": c["technique"],
         })
-    claimed = set(registry.PROPS)
+    claimed = {p for p in registry.PROPS if p in CLAIMS}
     na = [{"property_id": k, "reason": v} for k, v in sorted(NOT_APPLICABLE.items()) if k not in claimed]
     all_ids = [json.loads(l)["id"] for l in open(os.path.join(VERIF, "properties.jsonl"))]
     pending = [i for i in all_ids if i not in claimed and i not in NOT_APPLICABLE]
